@@ -11,6 +11,35 @@ CREATORS = ("std::fs::File::create", "std::fs::OpenOptions::open", "std::fs::wri
             "std::fs::File::options")
 
 
+def _out(F):
+    """Builtins::out with its private helpers spliced in (a lock helper, a sink helper, an accessor used only here)"""
+    return F.fn(OUT, flat=True)
+
+
+def _lock_ops(fn):
+    """(tests, sets) on the one-output-per-file lock: (block, call, locked-edge-is-true?) / blocks.  Either the accessors of
+    Environment or, when those were spliced in or replaced, the set operations on the `out_lock` field itself; an `insert`
+    whose result is tested is test and set in one (false = already there = locked)"""
+    o = Origins(fn)
+    tests, sets = [], []
+    for b, t in fn.calls():
+        c = callee(t)
+        last = c.split("::")[-1]
+        if c.endswith("Environment::get_out_lock_for_path"):
+            tests.append((b, t, True))
+        elif c.endswith("Environment::set_out_lock_for_path"):
+            sets.append(b)
+        elif last in ("contains", "insert", "get") and ("BTreeSet" in c or "HashSet" in c) and t["args"] and \
+                "out_lock" in {l[1] for l in o.at(t["args"][0], b) if l[0] == "field"}:
+            if last == "insert":
+                sets.append(b)
+                if util.bool_switches(fn, t["dest"]["l"]):
+                    tests.append((b, t, False))
+            else:
+                tests.append((b, t, True))
+    return tests, sets
+
+
 def _creation_sites(F, fn):
     """blocks of fn that create the artifact: a creator call, or a call of a local helper that contains one"""
     out = []
@@ -31,7 +60,7 @@ def r49t(F):
                    "the file Builtins::out writes is created with File::create, or through OpenOptions with truncate(true) (or "
                    "create_new): otherwise a shorter output overwrites an older, longer artifact in place and keeps its stale tail",
                    floor=1)
-    fn = F.fn(OUT)
+    fn = _out(F)
     sites = _creation_sites(F, fn)
     need(sites, "no file creation reachable from Builtins::out")
     for b, hf, hb in sites:
@@ -53,7 +82,7 @@ def r49(F):
     r = RuleResult("R49", "convert before create",
                    "in Builtins::out every path to the creation of the artifact has passed a successful return of "
                    "Converter::convert, so a failed conversion neither creates nor truncates a file", floor=2)
-    fn = F.fn(OUT)
+    fn = _out(F)
     conv = [b for b, t in fn.calls() if callee(t) == DYN_CONVERT]
     create = sorted({b for b, hf, hb in _creation_sites(F, fn)})
     need(conv, "no Converter::convert call in Builtins::out")
@@ -65,18 +94,20 @@ def r49(F):
                "every path to the creation passes Converter::convert" if ok else
                "the artifact is created (truncated) on a path that has not run the converter yet: a failing conversion "
                "leaves an empty artifact and destroys an earlier one")
-    # the Err edge of convert's result must not reach a creation
+    # the Err outcome of convert must not reach a creation (path-sensitive from the call's continuation: the result may be matched
+    # directly, tested with `?`, or handed back by a spliced helper first)
     for vb in conv:
         t = fn.term(vb)
-        sws = util.enum_switches(fn, t["dest"]["l"])
-        need(sws, "result of Converter::convert is not matched in Builtins::out")
-        for sb, st in sws:
-            et = cfg.switch_edge(st, variant="Err")
-            reach = cfg.reachable(fn, et)
-            ok = not (reach & set(create))
-            r.inst("Builtins::out:convert-Err", fn.where(sb), ok,
-                   "the Err edge of the conversion cannot reach a file creation" if ok else
-                   "a failed conversion still reaches the creation of the artifact")
+        need(not t["dest"]["p"] and t.get("t") is not None, "result of Converter::convert is stored in a projected place")
+        reach = cfg.reachable_ps(fn, t["t"], init={(t["dest"]["l"], "Err")})
+        okreach = cfg.reachable_ps(fn, t["t"], init={(t["dest"]["l"], "Ok")})
+        if not (set(create) & okreach):
+            r.inst("Builtins::out:convert-Err", fn.where(vb), True, "no creation behind this conversion (see Builtins::out:create)", nontrivial=False)
+            continue
+        ok = not (reach & set(create))
+        r.inst("Builtins::out:convert-Err", fn.where(vb), ok,
+               "the Err outcome of the conversion cannot reach a file creation" if ok else
+               "a failed conversion still reaches the creation of the artifact")
     return r
 
 
@@ -84,31 +115,29 @@ def r50(F):
     r = RuleResult("R50", "out lock protocol",
                    "the second-out test precedes taking the lock, its locked edge returns an error without converting or "
                    "writing, and every conversion/creation happens with the lock taken", floor=4)
-    fn = F.fn(OUT)
-    gets = [(b, t) for b, t in fn.calls() if callee(t).endswith("Environment::get_out_lock_for_path")]
-    sets = [b for b, t in fn.calls() if callee(t).endswith("Environment::set_out_lock_for_path")]
+    fn = _out(F)
+    gets, sets = _lock_ops(fn)
     conv = [b for b, t in fn.calls() if callee(t) == DYN_CONVERT]
     create = sorted({b for b, hf, hb in _creation_sites(F, fn)})
     need(gets and sets, "lock calls not found in Builtins::out")
-    err_blocks = set()
-    for b, j, pl, rv, meta in fn.assigns():
-        if pl["l"] == 0 and rv["k"] == "agg" and rv.get("variant") == "Err":
-            err_blocks.add(b)
-    for b, t in gets:
+    err_blocks = util.result_blocks(fn, "Err")
+    for b, t, locked_true in gets:
         sw = util.bool_switches(fn, t["dest"]["l"])
-        need(sw, "get_out_lock_for_path result is not tested")
+        need(sw, "the result of the lock test is not tested")
         for sb, ft, tt in sw:
-            reach = cfg.reachable(fn, tt)
-            ok = not (reach & (set(sets) | set(conv) | set(create))) and util.must_pass(fn, tt, err_blocks, exits=cfg.exits(fn))
+            le = tt if locked_true else ft
+            # path-sensitive: a lock helper hands `Err(..)` back and the hook propagates it with `?`
+            reach = cfg.reachable_ps(fn, le)
+            ok = not (reach & ((set(sets) - {b}) | set(conv) | set(create))) and cfg.must_pass_ps(fn, le, err_blocks, cfg.exits(fn))
             r.inst("Builtins::out:locked-edge", fn.where(sb), ok,
                    "a second out returns Err without converting or writing" if ok else
                    "the locked edge does not end in an error before any conversion/write")
     for sb in sets:
-        dom = [g for g, _ in gets if cfg.dominates(fn, g, sb)]
+        dom = [g for g, _, _ in gets if cfg.dominates(fn, g, sb)]
         r.inst("Builtins::out:set-after-test", fn.where(sb), bool(dom),
                "lock taken only after the test" if dom else "lock taken on a path that has not tested it")
     for xb in conv + create:
-        before = cfg.reachable(fn, 0, removed=set(sets))
+        before = cfg.reachable_ps(fn, 0, removed=set(sets))
         ok = xb not in before
         r.inst("Builtins::out:work-under-lock", fn.where(xb), ok,
                "conversion/creation only with the lock taken" if ok else "conversion/creation reachable without taking the lock")
@@ -119,7 +148,7 @@ def r51(F):
     r = RuleResult("R51", "artifact name provenance",
                    "the created path derives from the VM's source path through with_extension(file_ext()) of the selected converter",
                    floor=1)
-    fn = F.fn(OUT)
+    fn = _out(F)
     o = Origins(fn)
     for b, t in fn.calls():
         if callee(t) in CREATORS:
@@ -158,7 +187,7 @@ def r52(F):
                    "(except the lossy UTF-8 view in convert)", floor=6)
     table = {}
     for name in (OUT, CONVERT):
-        fn = F.fn(name)
+        fn = F.fn(name, flat=True)
         o = Origins(fn)
         short = name.split("::")[-1]
         getc = [(b, t) for b, t in fn.calls() if callee(t) == "ucglib::convert::ConverterRegistry::get_converter"]
@@ -178,7 +207,9 @@ def r52(F):
         labs = o.at(conv[0][1]["args"][1], conv[0][0])
         cs = calls_in(labs)
         ok = "alloc::vec::Vec::pop" in cs and "alloc::rc::Rc::new" in cs and any("Into" in c or "From" in c for c in cs)
-        other = sorted(c for c in cs if not (c.startswith("alloc::") or c.startswith("core::") or c.startswith("<")))
+        # the lowering Value -> Val itself (whichever of its From impls is used: by Rc, by reference) is the plain value
+        lowering = lambda c: "core::convert::From<" in c and "ucglib::build::ir::Val" in c and c.endswith("::from")
+        other = sorted(c for c in cs if not (c.startswith("alloc::") or c.startswith("core::") or c.startswith("<") or lowering(c)))
         r.inst("%s:value" % short, fn.where(conv[0][0]), ok and not other,
                "value is Rc::new(Val::from(<popped value>))" if ok and not other else
                "value handed to the converter is not the plain popped value (extra calls: %s)" % other, {"calls": sorted(cs)})
@@ -228,13 +259,27 @@ def r87b(F):
     fn = F.fn("ucglib::convert::ConverterRegistry::make_registry")
     o = Origins(fn)
     names = {}
+    def conv_ty(op):
+        # converter type: from the unsize cast's source type
+        tys = sorted(l[2] for l in o.of_operand(op) if l[0] == "cast" and "Box<" in l[2] and "dyn" not in l[2])
+        return tys[0] if len(tys) == 1 else None
+    dynamic = False
     for b, t in fn.calls():
         if callee(t) == "ucglib::convert::ConverterRegistry::register":
             nm = t["args"][1].get("str")
-            labs = o.of_operand(t["args"][2])
-            # converter type: from the unsize cast's source type
-            tys = sorted(l[2] for l in labs if l[0] == "cast" and "Box<" in l[2] and "dyn" not in l[2])
-            names[nm] = tys[0] if tys else "?"
+            if nm is None:
+                dynamic = True        # registered from a table: the (name, converter) pairs are built as tuples
+                continue
+            names[nm] = conv_ty(t["args"][2]) or "?"
+    if dynamic:
+        for b, j, pl, rv, m in fn.assigns():
+            if rv["k"] == "agg" and rv.get("adt") == "(tuple)" and len(rv["ops"]) == 2:
+                strs = [rv["ops"][0]["str"]] if rv["ops"][0].get("str") is not None else \
+                    sorted(l[2] for l in o.at(rv["ops"][0], b) if l[0] == "const" and l[1] == "str")
+                ty = conv_ty(rv["ops"][1])
+                if ty is not None and len(strs) == 1:
+                    names[strs[0]] = ty
+        need(names, "make_registry registers from a table this rule cannot read")
     exts = {}
     for n, f in F.fns.items():
         if n.endswith("as ucglib::convert::traits::Converter>::file_ext"):
@@ -299,24 +344,22 @@ def r49w(F):
                    "path that skips the write (an `is it current already` shortcut) is accepted only behind an equality test between the "
                    "new contents and the whole old file (fs::read / read_to_end / read_to_string) -- comparing only the first "
                    "contents.len() bytes treats an old artifact that merely starts with the new output as current", floor=1)
-    fn = F.fn(OUT)
+    fn = _out(F)
     conv = [b for b, t in fn.calls() if callee(t) == DYN_CONVERT]
     need(conv, "no Converter::convert call in Builtins::out")
     sites = _creation_sites(F, fn)
     create = sorted({b for b, hf, hb in sites})
     writes = {b for b, t in fn.calls() if callee(t).split("::")[-1] in ("write_all", "write", "write_fmt") and "io::Write" in callee(t) or callee(t) == "std::fs::write"}
     need(create and writes, "Builtins::out: creation / write of the artifact not found")
-    oks = [b for b, j, pl, rv, m in fn.assigns() if pl["l"] == 0 and not pl["p"] and rv["k"] == "agg" and rv.get("variant") == "Ok"]
+    oks = sorted(util.result_blocks(fn, "Ok"))
     # the file branch: Ok blocks reachable from a creation
     file_oks = [ob for ob in oks if any(cfg.reaches(fn, cb, ob) for cb in create)]
     need(file_oks, "Builtins::out: no Ok return behind the creation of the artifact")
     # can Ok be reached from the conversion's success without a write, on a path that does not go to stdout?
     t0 = fn.term(conv[0])
-    succ = None
-    for sb, st in util.enum_switches(fn, t0["dest"]["l"]):
-        succ = cfg.switch_edge(st, variant="Ok")
-    need(succ is not None, "Builtins::out: result of the conversion is not matched")
-    skipping = [ob for ob in oks if ob in cfg.reachable(fn, succ, removed=writes)]
+    need(not t0["dest"]["p"] and t0.get("t") is not None, "Builtins::out: result of the conversion is stored in a projected place")
+    after_ok = cfg.reachable_ps(fn, t0["t"], removed=writes, init={(t0["dest"]["l"], "Ok")})
+    skipping = [ob for ob in oks if ob in after_ok]
     if not skipping:
         r.inst("out:writes", fn.where(create[0]), True, "every path that reaches the file branch creates and writes the artifact")
         return r
